@@ -539,6 +539,50 @@ def sums_history(g, rng, queries=()):
         cmds.append({"c": "pop", "n": 1}); cmds.append({"c": "check-sat"}); cmds += [dict(q) for q in queries]
     return cmds
 
+def eqsys_history(g, rng, queries=()):
+    """systems of top-level equalities over a few plain variables and several uninterpreted terms (h(x), h(h(y)), ...),
+    all shared between the equalities: the preprocessor solves each equality for one of its terms and composes the
+    substitutions, so which term is chosen as the key of each equality matters"""
+    tb, S = g.tb, g.num
+    vs = list(g.nums)
+    def num(c): return tb.num(c, S)
+    if "h" not in g.funs:
+        g._declare("h", (S,), S)
+    if "h2" not in g.funs:
+        g._declare("h2", (S,), S)
+    opaque = [tb.uf(f, [v], S) for f in ("h", "h2") for v in vs[:2]]
+    if rng.random() < 0.3:
+        opaque.append(tb.uf("h", [tb.uf("h2", [vs[0]], S)], S))
+    rng.shuffle(opaque)
+    opaque = opaque[:rng.randint(2, 4)]
+    eqs = []
+    for _ in range(rng.randint(2, 4)):
+        ts = rng.sample(vs, rng.choice([1, 1, 2])) + rng.sample(opaque, rng.randint(2, min(3, len(opaque))))
+        rng.shuffle(ts)
+        k = rng.randint(1, len(ts) - 1)
+        def side(xs):
+            parts = []
+            for t in xs:
+                c = rng.choice([1, 1, 1, 2, -1, 3])
+                parts.append(t if c == 1 else tb.app("*", [num(c), t]))
+            if rng.random() < 0.2:
+                parts.append(num(rng.randint(-3, 3)))
+            return parts[0] if len(parts) == 1 else tb.app("+", parts)
+        eqs.append(tb.app("=", [side(ts[:k]), side(ts[k:])]))
+    cmds = []
+    depth = 0
+    if rng.random() < 0.3:
+        cmds.append({"c": "push", "n": 1}); depth += 1
+    for e in eqs:
+        cmds.append({"c": "assert", "t": e, "nm": "", "inner": []})
+    if rng.random() < 0.5:
+        a, b = rng.sample(vs + opaque, 2)
+        cmds.append({"c": "assert", "t": tb.app(rng.choice(["<=", "<", "distinct"]), [a, b]), "nm": "", "inner": []})
+    cmds.append({"c": "check-sat"}); cmds += [dict(q) for q in queries]
+    if depth:
+        cmds.append({"c": "pop", "n": 1}); cmds.append({"c": "check-sat"}); cmds += [dict(q) for q in queries]
+    return cmds
+
 def dlgraph_history(g, rng, queries=(), boolean=True):
     """difference-constraint graphs: several paths of different weight between the same vertices (diamonds), zero-weight
     cycles, and a negated bound whose value sits at, just below or just above the shortest path, or between the light and
